@@ -20,6 +20,9 @@ func init() {
 		Run: func(c *Ctx) {
 			c.ruleEqualExtSymmetry("R-EQUAL-EXT-SYMMETRY")
 			c.ruleSwapInvariant("R-EQUAL-SWAP-INVARIANT")
+			c.ruleEqualValidity("R-EQUAL-VALIDITY")
+			c.ruleEqualFieldPresence("R-EQUAL-FIELD-PRESENCE")
+			c.ruleEqualUnknownNoAlias("R-EQUAL-UNKNOWN-NOALIAS")
 		},
 	})
 }
